@@ -1,7 +1,320 @@
-(* C16 - structured headers; placeholder until the proofs land. *)
-From WP Require Import Base.Prelude Model.StructHdr.
+(* C16 - structured headers (go/signedexchange/structuredheader).
+
+   "Serializing any valid parameterised list or list-of-lists and parsing the
+   result returns the identical value, with parameters emitted in sorted order
+   so the output is unique; invalid values (non-printable string characters,
+   malformed tokens or keys, empty lists, unsupported item types) are refused.
+   On arbitrary input strings the parsers accept exactly the draft-09 grammar
+   subset they implement, as decided by an independent reference parser,
+   return the same value, and parse-serialize-parse is the identity on every
+   accepted input."
+
+   Model: Model/StructHdr.v.  Declarative side (validity, grammar): Spec/StructHdr.v.
+   Proofs: Proofs/SH{Lemmas,Enc,Item,Parse,Roundtrip}.v.
+
+   Reading notes.
+   - Parameters are a Go map; the model carries them as an association list.
+     "Identical value" for parameterised lists is therefore equality of finite
+     maps: [pi_equiv] (same label, parameters equal up to order).  The parser
+     returns parameters in order of appearance, so what comes back after
+     serialize+parse is exactly [canon_pi] of the input (parameters sorted by
+     key), which is [pi_equiv] to it.  For lists of lists it is plain equality.
+   - The model's value types are wider than Go's (unbounded Z, N for bytes,
+     association lists with possibly repeated keys).  "Refused" is stated on
+     the Go domain [dom_pi]/[dom_item]: int64 in range, bytes < 256, no
+     duplicate map keys.
+   - The grammar ([Derives_plist], [Derives_lol]) is written with plain
+     concatenation and NO look-ahead side conditions; that greedy
+     tokenisation agrees with it is part of what is proved.
+   - As instructed for this property, an integer is ["-"] 1*DIGIT with value in
+     int64 range: no limit on the number of digits (leading zeros), matching
+     strconv.ParseInt; base64 text ignores the unused low bits of a final
+     partial quantum (Go's non-strict decoder). *)
+From Coq Require Import Permutation Sorted Lia.
+From WP Require Import Base.Prelude Base.Base64 Model.StructHdr Spec.StructHdr.
+From WP Require Import Proofs.SHLemmas Proofs.SHEnc Proofs.SHItem Proofs.SHParse Proofs.SHRoundtrip.
 Open Scope N_scope.
 
-Theorem c16_smoke : parse_list_of_lists (s2b "1, 2; a") = Ok [[ShInt 1]; [ShInt 2; ShTok (s2b "a")]].
-Proof. reflexivity. Qed.
-Print Assumptions c16_smoke.
+(* ======================= serialize, then parse =========================== *)
+Theorem c16_serialize_parse_plist : forall pl, valid_plist pl ->
+  exists s, serialize_plist pl = Ok s
+            /\ parse_parameterised_list s = Ok (map canon_pi pl)
+            /\ Forall2 pi_equiv pl (map canon_pi pl).
+Proof. exact serialize_parse_plist. Qed.
+Print Assumptions c16_serialize_parse_plist.
+
+Theorem c16_serialize_parse_lol : forall ll, valid_lol ll ->
+  exists s, serialize_lol ll = Ok s /\ parse_list_of_lists s = Ok ll.
+Proof. exact serialize_parse_lol. Qed.
+Print Assumptions c16_serialize_parse_lol.
+
+(* canon_pi: same map, parameters sorted by key, idempotent *)
+Theorem c16_canon_equiv : forall p, pi_equiv p (canon_pi p).
+Proof. exact canon_pi_equiv. Qed.
+Print Assumptions c16_canon_equiv.
+Theorem c16_canon_sorted : forall p, StronglySorted key_le (pi_params (canon_pi p)).
+Proof. exact canon_pi_sorted. Qed.
+Print Assumptions c16_canon_sorted.
+Theorem c16_canon_unique : forall p p', pi_equiv p p' -> NoDup (keys (pi_params p)) ->
+  canon_pi p = canon_pi p'.
+Proof. exact canon_unique. Qed.
+Print Assumptions c16_canon_unique.
+
+(* ======================= sorted order, unique output ===================== *)
+Theorem c16_serialize_unique : forall p p',
+  pi_label p = pi_label p' -> Permutation (pi_params p) (pi_params p') ->
+  NoDup (keys (pi_params p)) -> serialize_pi p = serialize_pi p'.
+Proof. exact serialize_unique. Qed.
+Print Assumptions c16_serialize_unique.
+
+Theorem c16_serialize_plist_unique : forall pl pl',
+  Forall2 pi_equiv pl pl' -> Forall (fun p => NoDup (keys (pi_params p))) pl ->
+  serialize_plist pl = serialize_plist pl'.
+Proof. exact serialize_plist_unique. Qed.
+Print Assumptions c16_serialize_plist_unique.
+
+(* and conversely: equal output only for equal values *)
+Theorem c16_serialize_plist_injective : forall pl pl', valid_plist pl -> valid_plist pl' ->
+  serialize_plist pl = serialize_plist pl' -> Forall2 pi_equiv pl pl'.
+Proof. exact serialize_plist_injective. Qed.
+Print Assumptions c16_serialize_plist_injective.
+Theorem c16_serialize_lol_injective : forall ll ll', valid_lol ll -> valid_lol ll' ->
+  serialize_lol ll = serialize_lol ll' -> ll = ll'.
+Proof. exact serialize_lol_injective. Qed.
+Print Assumptions c16_serialize_lol_injective.
+
+(* re-serializing the parsed-back (canonical) value gives the same text *)
+Theorem c16_serialize_canon_plist : forall pl, valid_plist pl ->
+  serialize_plist (map canon_pi pl) = serialize_plist pl.
+Proof. exact serialize_canon_plist. Qed.
+Print Assumptions c16_serialize_canon_plist.
+
+(* ======================= invalid values are refused ====================== *)
+Theorem c16_valid_plist_b_iff : forall pl, valid_plist_b pl = true <-> valid_plist pl.
+Proof. exact valid_plist_b_iff. Qed.
+Print Assumptions c16_valid_plist_b_iff.
+Theorem c16_valid_lol_b_iff : forall ll, valid_lol_b ll = true <-> valid_lol ll.
+Proof. exact valid_lol_b_iff. Qed.
+Print Assumptions c16_valid_lol_b_iff.
+
+Theorem c16_serialize_plist_ok_iff : forall pl, Forall dom_pi pl ->
+  (valid_plist_b pl = true <-> exists s, serialize_plist pl = Ok s).
+Proof. exact serialize_plist_ok_iff. Qed.
+Print Assumptions c16_serialize_plist_ok_iff.
+Theorem c16_serialize_plist_refuses : forall pl, Forall dom_pi pl ->
+  (valid_plist_b pl = false <-> serialize_plist pl = Err).
+Proof. exact serialize_plist_refuses. Qed.
+Print Assumptions c16_serialize_plist_refuses.
+
+Theorem c16_serialize_lol_ok_iff : forall ll, Forall (Forall dom_item) ll ->
+  (valid_lol_b ll = true <-> exists s, serialize_lol ll = Ok s).
+Proof. exact serialize_lol_ok_iff. Qed.
+Print Assumptions c16_serialize_lol_ok_iff.
+Theorem c16_serialize_lol_refuses : forall ll, Forall (Forall dom_item) ll ->
+  (valid_lol_b ll = false <-> serialize_lol ll = Err).
+Proof. exact serialize_lol_refuses. Qed.
+Print Assumptions c16_serialize_lol_refuses.
+
+(* ======================= the parsers vs. the grammar ===================== *)
+Theorem c16_parser_sound_plist : forall s pl,
+  parse_parameterised_list s = Ok pl -> Derives_plist s pl.
+Proof. exact parse_plist_sound. Qed.
+Print Assumptions c16_parser_sound_plist.
+Theorem c16_parser_complete_plist : forall s pl,
+  Derives_plist s pl -> parse_parameterised_list s = Ok pl.
+Proof. exact parse_plist_complete. Qed.
+Print Assumptions c16_parser_complete_plist.
+Theorem c16_parser_sound_lol : forall s ll, parse_list_of_lists s = Ok ll -> Derives_lol s ll.
+Proof. exact parse_lol_sound. Qed.
+Print Assumptions c16_parser_sound_lol.
+Theorem c16_parser_complete_lol : forall s ll, Derives_lol s ll -> parse_list_of_lists s = Ok ll.
+Proof. exact parse_lol_complete. Qed.
+Print Assumptions c16_parser_complete_lol.
+
+(* everything else is an error return: no panic, no non-termination *)
+Theorem c16_parse_plist_total : forall s,
+  parse_parameterised_list s <> Panic /\ parse_parameterised_list s <> Fuel.
+Proof. exact parse_plist_no_panic_no_fuel. Qed.
+Print Assumptions c16_parse_plist_total.
+Theorem c16_parse_lol_total : forall s,
+  parse_list_of_lists s <> Panic /\ parse_list_of_lists s <> Fuel.
+Proof. exact parse_lol_no_panic_no_fuel. Qed.
+Print Assumptions c16_parse_lol_total.
+Theorem c16_parse_plist_rejects_iff : forall s,
+  parse_parameterised_list s = Err <-> forall pl, ~ Derives_plist s pl.
+Proof. exact parse_plist_rejects_iff. Qed.
+Print Assumptions c16_parse_plist_rejects_iff.
+Theorem c16_parse_lol_rejects_iff : forall s,
+  parse_list_of_lists s = Err <-> forall ll, ~ Derives_lol s ll.
+Proof. exact parse_lol_rejects_iff. Qed.
+Print Assumptions c16_parse_lol_rejects_iff.
+
+(* the grammar is unambiguous *)
+Theorem c16_grammar_functional_plist : forall s pl pl',
+  Derives_plist s pl -> Derives_plist s pl' -> pl = pl'.
+Proof. exact Derives_plist_functional. Qed.
+Print Assumptions c16_grammar_functional_plist.
+Theorem c16_grammar_functional_lol : forall s ll ll',
+  Derives_lol s ll -> Derives_lol s ll' -> ll = ll'.
+Proof. exact Derives_lol_functional. Qed.
+Print Assumptions c16_grammar_functional_lol.
+
+(* ======================= parse, serialize, parse ========================= *)
+Theorem c16_parse_plist_valid : forall s pl, parse_parameterised_list s = Ok pl -> valid_plist pl.
+Proof. exact parse_plist_valid. Qed.
+Print Assumptions c16_parse_plist_valid.
+Theorem c16_parse_lol_valid : forall s ll, parse_list_of_lists s = Ok ll -> valid_lol ll.
+Proof. exact parse_lol_valid. Qed.
+Print Assumptions c16_parse_lol_valid.
+
+Theorem c16_parse_serialize_parse_plist : forall s pl, parse_parameterised_list s = Ok pl ->
+  exists s', serialize_plist pl = Ok s'
+             /\ parse_parameterised_list s' = Ok (map canon_pi pl)
+             /\ Forall2 pi_equiv pl (map canon_pi pl).
+Proof. exact parse_serialize_parse_plist. Qed.
+Print Assumptions c16_parse_serialize_parse_plist.
+Theorem c16_parse_serialize_parse_lol : forall s ll, parse_list_of_lists s = Ok ll ->
+  exists s', serialize_lol ll = Ok s' /\ parse_list_of_lists s' = Ok ll.
+Proof. exact parse_serialize_parse_lol. Qed.
+Print Assumptions c16_parse_serialize_parse_lol.
+
+(* ======================= base64 used by byte sequences =================== *)
+Theorem c16_b64_roundtrip : forall bs, wfb bs ->
+  b64_decode true false (b64_encode true false bs) = Some bs
+  /\ lenN (b64_encode true false bs) mod 4 = 0
+  /\ forallb is_b64char (b64_encode true false bs) = true
+  /\ forallb (fun x => negb (x =? 42)) (b64_encode true false bs) = true.
+Proof. exact b64_roundtrip. Qed.
+Print Assumptions c16_b64_roundtrip.
+
+(* ======================= examples ======================================== *)
+(* a value exercising every item type, both int64 extremes, escapes, a flag
+   parameter, and parameters given in non-sorted order *)
+Definition ex_pl : list pident :=
+  [ {| pi_label := s2b "sig1";
+       pi_params := [ (s2b "validity-url", Some (ShStr (s2b "https://e.com/a\""b")));
+                      (s2b "integrity", Some (ShStr (s2b "digest/mi-sha256-03")));
+                      (s2b "sig", Some (ShBytes [1; 2; 3; 254; 255]));
+                      (s2b "date", Some (ShInt (-9223372036854775808)));
+                      (s2b "flag", None);
+                      (s2b "expires", Some (ShInt 9223372036854775807));
+                      (s2b "tok", Some (ShTok (s2b "a*/b:c"))) ] |};
+    {| pi_label := s2b "x"; pi_params := [] |} ].
+
+Example ex_pl_valid : valid_plist ex_pl.
+Proof. apply valid_plist_b_iff. vm_compute. reflexivity. Qed.
+
+Example ex_pl_dom : Forall dom_pi ex_pl.
+Proof.
+  assert (H : valid_plist ex_pl) by exact ex_pl_valid. destruct H as [_ H].
+  eapply Forall_impl; [|exact H]. intros p [_ (_ & Hn & Hv)]. split; [exact Hn|].
+  eapply Forall_impl; [|exact Hv]. intros [[z|s|t|b|]|]; cbn; tauto.
+Qed.
+
+Example ex_pl_text : serialize_plist ex_pl =
+  Ok (s2b "sig1;date=-9223372036854775808;expires=9223372036854775807;flag;integrity=""digest/mi-sha256-03"";sig=*AQID/v8=*;tok=a*/b:c;validity-url=""https://e.com/a\\\""b"", x").
+Proof. vm_compute. reflexivity. Qed.
+
+Example ex_pl_unsorted : map canon_pi ex_pl <> ex_pl.
+Proof. vm_compute. discriminate. Qed.
+
+Example ex_pl_roundtrip :
+  (let* s := serialize_plist ex_pl in parse_parameterised_list s) = Ok (map canon_pi ex_pl).
+Proof. vm_compute. reflexivity. Qed.
+
+(* the same parameters in another order: same text *)
+Example ex_pl_perm :
+  serialize_pi {| pi_label := s2b "a"; pi_params := [(s2b "z", Some (ShInt 1)); (s2b "b", None)] |}
+  = serialize_pi {| pi_label := s2b "a"; pi_params := [(s2b "b", None); (s2b "z", Some (ShInt 1))] |}
+  /\ serialize_pi {| pi_label := s2b "a"; pi_params := [(s2b "z", Some (ShInt 1)); (s2b "b", None)] |}
+     = Ok (s2b "a;b;z=1").
+Proof. vm_compute. split; reflexivity. Qed.
+
+(* int64 extremes in a list of lists *)
+Definition ex_ll : list (list sh_item) :=
+  [[ShInt (-9223372036854775808); ShInt 9223372036854775807]; [ShBytes []; ShStr []; ShTok (s2b "t*")]].
+Example ex_ll_valid : valid_lol ex_ll.
+Proof. apply valid_lol_b_iff. vm_compute. reflexivity. Qed.
+Example ex_ll_text : serialize_lol ex_ll =
+  Ok (s2b "-9223372036854775808; 9223372036854775807, **; """"; t*").
+Proof. vm_compute. reflexivity. Qed.
+Example ex_ll_roundtrip : (let* s := serialize_lol ex_ll in parse_list_of_lists s) = Ok ex_ll.
+Proof. vm_compute. reflexivity. Qed.
+Example ex_int_out_of_range :
+  parse_list_of_lists (s2b "-9223372036854775809") = Err /\ parse_list_of_lists (s2b "9223372036854775808") = Err.
+Proof. vm_compute. split; reflexivity. Qed.
+
+(* refusals *)
+Example ex_refused :
+  serialize_lol [] = Err /\ serialize_lol [[]] = Err /\ serialize_plist [] = Err
+  /\ serialize_lol [[ShStr [10]]] = Err                     (* non-printable *)
+  /\ serialize_lol [[ShStr [127]]] = Err
+  /\ serialize_lol [[ShTok (s2b "1a")]] = Err               (* malformed token *)
+  /\ serialize_lol [[ShTok (s2b "a b")]] = Err
+  /\ serialize_lol [[ShTok []]] = Err
+  /\ serialize_lol [[ShBad]] = Err                           (* unsupported type *)
+  /\ serialize_plist [{| pi_label := s2b "a"; pi_params := [(s2b "K", None)] |}] = Err  (* malformed key *)
+  /\ serialize_plist [{| pi_label := s2b "a"; pi_params := [([], None)] |}] = Err
+  /\ serialize_plist [{| pi_label := s2b "a"; pi_params := [(s2b "k", Some ShBad)] |}] = Err
+  /\ serialize_plist [{| pi_label := s2b "a,"; pi_params := [] |}] = Err.
+Proof. vm_compute. repeat split. Qed.
+
+(* parser: CR/LF inside a byte sequence is rejected; padded, unpadded and
+   non-canonical trailing bits are accepted (and re-serialize canonically) *)
+Example ex_b64_newlines_rejected :
+  parse_list_of_lists (s2b "*aGk=" ++ [10; 10; 10; 10] ++ [42]) = Err.
+Proof. vm_compute. reflexivity. Qed.
+Example ex_b64_forms :
+  parse_list_of_lists (s2b "*aGk=*") = Ok [[ShBytes (s2b "hi")]]
+  /\ parse_list_of_lists (s2b "*aGk*") = Ok [[ShBytes (s2b "hi")]]
+  /\ parse_list_of_lists (s2b "*aGl=*") = Ok [[ShBytes (s2b "hi")]]
+  /\ serialize_lol [[ShBytes (s2b "hi")]] = Ok (s2b "*aGk=*")
+  /\ parse_list_of_lists (s2b "*aGk==*") = Err
+  /\ parse_list_of_lists (s2b "*a*") = Err.
+Proof. vm_compute. repeat split. Qed.
+
+(* OWS, flags, duplicate keys, trailing commas, greedy tokens *)
+Example ex_parse_plist :
+  parse_parameterised_list (s2b " a ; k=1 ;k2 , b;k=""x"" ")
+  = Ok [ {| pi_label := s2b "a"; pi_params := [(s2b "k", Some (ShInt 1)); (s2b "k2", None)] |};
+         {| pi_label := s2b "b"; pi_params := [(s2b "k", Some (ShStr (s2b "x")))] |} ].
+Proof. vm_compute. reflexivity. Qed.
+Example ex_parse_rejects :
+  parse_parameterised_list (s2b "a;k;k") = Err
+  /\ parse_parameterised_list (s2b "a,") = Err
+  /\ parse_parameterised_list [] = Err
+  /\ parse_parameterised_list (s2b "a;k = 1") = Err
+  /\ parse_parameterised_list (s2b "a;k=") = Err
+  /\ parse_list_of_lists (s2b "a*aGk=*") = Err
+  /\ parse_list_of_lists (s2b "1;") = Err
+  /\ parse_list_of_lists (s2b "1.5") = Err
+  /\ parse_list_of_lists (s2b """a\nb""") = Err
+  /\ parse_list_of_lists (s2b "?T") = Err.
+Proof. vm_compute. repeat split. Qed.
+
+(* a derivation built by hand, directly from the grammar: "1, 2; a" *)
+Example ex_derivation : Derives_lol (s2b "1, 2; a") [[ShInt 1]; [ShInt 2; ShTok (s2b "a")]].
+Proof.
+  change (s2b "1, 2; a")
+    with ([] ++ ([49] ++ []) ++ ([] ++ 44 :: [32] ++ ([50] ++ ([] ++ 59 :: [32] ++ [97] ++ [])) ++ []) ++ @nil N).
+  assert (W : OWS [32]) by (constructor; [left; reflexivity|constructor]).
+  apply DLL; [constructor| | |constructor].
+  - apply DIn; [|constructor]. apply (DI_pos [49] 1); [apply (DV_one 49); unfold DIGIT; lia|].
+    unfold int64_range. lia.
+  - apply DLT_cons; [constructor|exact W| |constructor].
+    apply DIn.
+    + apply (DI_pos [50] 2); [apply (DV_one 50); unfold DIGIT; lia|].
+      unfold int64_range. lia.
+    + apply DIT_cons; [constructor|exact W| |constructor].
+      apply DI_tok. cbn. split; [|constructor]. left. unfold LCALPHA. lia.
+Qed.
+(* ... and the parser agrees with it *)
+Example ex_derivation_parsed :
+  parse_list_of_lists (s2b "1, 2; a") = Ok [[ShInt 1]; [ShInt 2; ShTok (s2b "a")]].
+Proof. exact (parse_lol_complete _ _ ex_derivation). Qed.
+
+(* greedy tokenisation is not an extra restriction: "a*aGk=*" has no derivation
+   at all (it is neither the token "a" followed by a byte sequence, nor a
+   single token, '=' not being a token character) *)
+Example ex_no_derivation : forall ll, ~ Derives_lol (s2b "a*aGk=*") ll.
+Proof. apply parse_lol_rejects_iff. vm_compute. reflexivity. Qed.
